@@ -3571,11 +3571,29 @@ class Graph(_protocols.GraphProtocol, Sequence[Node], _display.PrettyPrintable):
         self.name = name
 
         # Private fields that are not to be accessed by any other classes
-        self._inputs = _graph_containers.GraphInputs(self, inputs)
-        self._outputs = _graph_containers.GraphOutputs(self, outputs)
-        self._initializers = _graph_containers.GraphInitializers(
-            self, {initializer.name: initializer for initializer in initializers}
-        )
+        inputs = tuple(inputs)
+        outputs = tuple(outputs)
+        initializers = tuple(initializers)
+        nodes = tuple(nodes)
+        self._inputs = _graph_containers.GraphInputs(self)
+        self._outputs = _graph_containers.GraphOutputs(self)
+        self._initializers = _graph_containers.GraphInitializers(self)
+        # Check every argument before taking ownership of anything, so that a rejected
+        # value or node does not leave the others attached to a half-constructed graph
+        for value in inputs:
+            self._inputs._check_value(value)  # pylint: disable=protected-access
+        for value in outputs:
+            self._outputs._check_value(value)  # pylint: disable=protected-access
+        for value in initializers:
+            self._initializers._check_item(value.name, value)  # type: ignore[arg-type]  # pylint: disable=protected-access
+        for node in nodes:
+            if node.graph is not None:
+                raise ValueError(
+                    f"The node '{node!r}' belongs to another graph. Please remove it first with Graph.remove()."
+                )
+        self._inputs.extend(inputs)
+        self._outputs.extend(outputs)
+        self._initializers.update({initializer.name: initializer for initializer in initializers})  # type: ignore[misc]
         self._doc_string = doc_string
         self._opset_imports = opset_imports or {}
         self._metadata: _metadata.MetadataStore | None = None
